@@ -109,6 +109,10 @@ func (c06) Plan(tier string, seed int64) []core.Scenario {
 			out = append(out, core.Sc("rawids").WithN("set", set).WithN("order", order))
 		}
 	}
+	// cancellation on a connection that has been re-established once or twice
+	for i := 0; i < 3; i++ {
+		out = append(out, core.Sc("cancel-after-reconnect").WithN("fk", i%2).WithN("losses", 1+i%2).WithN("noise", i%3))
+	}
 	// a cancel arriving while the handler of a notification on the same connection is still running
 	for i := 0; i < 3; i++ {
 		out = append(out, core.Sc("cancel-behind-notify").WithN("notes", 1+i).WithN("sub", i%2).WithN("noise", i%3))
@@ -126,6 +130,10 @@ func (c06) Plan(tier string, seed int64) []core.Scenario {
 
 func (p c06) Run(sc core.Scenario) core.Result {
 	r := core.NewR(sc)
+	if sc.Kind == "cancel-after-reconnect" {
+		p.cancelAfterReconnect(sc, r)
+		return r.Result()
+	}
 	if sc.Kind == "cancel-behind-notify" {
 		p.cancelBehindNotify(sc, r)
 		return r.Result()
@@ -973,4 +981,91 @@ func (c06) cancelBehindNotify(sc core.Scenario, r *core.R) {
 	r.Obs("notifications_running", int64(len(notes)))
 	r.Sig(core.Log.Signature())
 	r.Sample(map[string]interface{}{"scenario": "cancel while notification handlers on the same connection are running", "notifications": len(notes), "subscription": sc.I("sub") == 1})
+}
+
+// cancelAfterReconnect: the client loses its connection and re-establishes it (once or twice); then a call
+// in flight and a subscription whose subscribing call has returned are cancelled on the new, healthy
+// connection. Both handler contexts must be cancelled; an uncancelled sibling's must stay live.
+func (c06) cancelAfterReconnect(sc core.Scenario, r *core.R) {
+	kind := []string{wsproxy.RST, wsproxy.FIN}[sc.I("fk")]
+	env := NewEnv(EnvOpt{})
+	defer env.Shutdown()
+	defer noisePolicy(sc).Install()()
+	cl, err := env.NewClient(ClientOpt{Opts: []jsonrpc.Option{jsonrpc.WithReconnectBackoff(5*time.Millisecond, 20*time.Millisecond)}})
+	if err != nil {
+		r.Inconclusive("client: %v", err)
+		return
+	}
+	bg := context.Background()
+	// a subscription that dies with the first connection
+	octx, ocancel := context.WithCancel(bg)
+	defer ocancel()
+	if ch, err := cl.Sub(octx, Tok("o"), 0, svc.SInfinite); err == nil {
+		drainItems(ch, 0, -1, nil)
+	}
+	for i := 0; i < sc.I("losses"); i++ {
+		env.Px.KillAll(kind)
+		if !probeUntilHealthy(cl, r, 2*core.Grace) {
+			r.Inconclusive("link never healthy again")
+			return
+		}
+	}
+	where := fmt.Sprintf("after %d x %s and a successful reconnect", sc.I("losses"), kind)
+	st, kt, ct := Tok("s"), Tok("k"), Tok("c")
+	sctx, scancel := context.WithCancel(bg)
+	defer scancel()
+	ch, err := cl.Sub(sctx, st, 0, svc.SInfinite)
+	if err != nil {
+		r.Violate("subscribe-failed", "%s: subscribing on the healthy connection failed: %v", where, err)
+		return
+	}
+	sg := drainItems(ch, 0, -1, nil)
+	kctx, kcancel := context.WithCancel(bg)
+	defer kcancel()
+	kch, err := cl.Sub(kctx, kt, 0, svc.SInfinite) // the sibling that is not cancelled
+	if err != nil {
+		r.Violate("subscribe-failed", "%s: subscribing on the healthy connection failed: %v", where, err)
+		return
+	}
+	kg := drainItems(kch, 0, -1, nil)
+	env.Svc.Hold(ct)
+	cctx, ccancel := context.WithCancel(bg)
+	defer ccancel()
+	co := Go(ct, func() (string, error) { return cl.Echo(cctx, ct, "") })
+	env.Svc.WaitEntered(ct, core.Grace)
+	for sg.n() < 3 || kg.n() < 3 {
+		if !core.Eventually(core.Grace, func() bool { return sg.n() >= 3 && kg.n() >= 3 }) {
+			r.Violate("stream-stuck", "%s: subscriptions opened on the healthy connection deliver nothing", where)
+			return
+		}
+	}
+	scancel()
+	ccancel()
+	ctxDone := func(tok string) bool {
+		return core.Eventually(core.Grace, func() bool {
+			rec := env.Svc.Get(tok)
+			return rec.Ctx != nil && rec.Ctx.Err() != nil
+		})
+	}
+	if !ctxDone(st) {
+		r.Violate("cancel-not-delivered:after-reconnect", "%s: subscription %s was cancelled by its caller after the subscribing call had returned, but its handler's context is still live (the handler keeps producing)", where, st)
+	}
+	if !ctxDone(ct) {
+		r.Violate("cancel-not-delivered:after-reconnect", "%s: in-flight call %s was cancelled by its caller but its handler's context is still live", where, ct)
+	}
+	if !core.WaitCh(sg.done, core.Grace) {
+		r.Violate("cancelled-call-hang:after-reconnect", "%s: the cancelled subscription's channel was not closed", where)
+	}
+	if rec := env.Svc.Get(kt); rec.Ctx != nil && rec.Ctx.Err() != nil {
+		r.Violate("cancel-hit-bystander:after-reconnect", "%s: the context of the uncancelled subscription %s was cancelled (%v)", where, kt, rec.Ctx.Err())
+	}
+	n0 := kg.n()
+	if !core.Eventually(core.Grace, func() bool { return kg.n() > n0 }) {
+		r.Violate("cancel-hit-bystander:after-reconnect", "%s: the uncancelled subscription %s stopped delivering after its sibling was cancelled", where, kt)
+	}
+	co.Wait(core.Grace)
+	r.Key(fmt.Sprintf("cancel-after-reconnect %s x%d", kind, sc.I("losses")), true)
+	r.Obs("cancels", 2)
+	r.Sig(core.Log.Signature())
+	r.Sample(map[string]interface{}{"scenario": "cancel of a call and of a subscription on a re-established connection", "losses": sc.I("losses"), "kind": kind})
 }
